@@ -221,6 +221,14 @@ func genScenario(cfg ScenarioCfg) *rapid.Generator[Scenario] {
 			w.CopiedOpts = k != 0
 			sc.Warm = w
 		}
+		if rapid.IntRange(0, 7).Draw(t, "large start weights") == 0 {
+			// weights of a long run with a large weight-mutation power (hundreds), in the start genome already
+			sc.Start.Genes = append([]GeneSpec(nil), sc.Start.Genes...)
+			for k := range sc.Start.Genes {
+				sc.Start.Genes[k].W *= 100
+				sc.Start.Genes[k].Mut *= 100
+			}
+		}
 		if cfg.CancelTail {
 			sc.CancelTail = rapid.Bool().Draw(t, "cancelled tail")
 		}
